@@ -12,11 +12,14 @@ own result.
 """
 from __future__ import annotations
 
+import contextlib
+
 from simkit import seeds
 from simkit.ddmin import ddmin_list
 from simkit.eventlog import EventLog, digest_of
 from simkit import interrupt as intr
 from simkit.runner import kernpy_src
+from simkit.envknobs import debug_logging
 
 LETTERS = 'cdefgab'
 ALTS = (-3, -2, -1, 0, 1, 2, 3)
@@ -49,6 +52,9 @@ def spell_from_name(name: str, octave: int) -> str | None:
     return spell(name[0], alt, octave)
 
 
+GK_CLEFS = ['*clefG2', '*clefG2', '*clefF4', '*clefF3', '*clefC1', '*clefC2', '*clefC3', '*clefC4', '*clefGv2', '*clefG^2', '*clefGvv2', '*clefFv4', '*clefC^3']
+
+
 class C16:
     PROPERTY = 'C16'
     TIERS = {
@@ -70,7 +76,7 @@ class C16:
                    'objects returned by to_transposed are modelled by the same call on a fresh equal object (reference path)',
                    'seeded search samples histories; only the 539-spelling grid is covered exhaustively']
     PROBES = ['export_repeated', 'reimport', 'bad_call_then_valid', 'interrupt_delivered', 'direct_construct_export', 'triple_alteration',
-              'octave_extreme', 'edited_through_setters', 'reentrant_callback_delivered', 'cold_first_export_interrupted', 'used_from_a_new_thread']
+              'octave_extreme', 'edited_through_setters', 'reentrant_callback_delivered', 'cold_first_export_interrupted', 'used_from_a_new_thread', 'graphic_export_of_a_pool_object']
 
     # ---------------------------------------------------------------- plan
     def gen_plan(self, seed: int, index: int, tier: str) -> dict:
@@ -90,7 +96,7 @@ class C16:
             out = []
             for _ in range(n):
                 kind = seeds.weighted(rng, [('imp', 4), ('new', 3), ('exp', 5), ('exp_am', 2), ('read', 3), ('tr', 2), ('reimp', 2),
-                                            ('exp0', 2), ('set', 2.5), ('thread', 0.5)])
+                                            ('exp0', 2), ('set', 2.5), ('thread', 0.5), ('exp_gk', 1.5)])
                 if kind == 'imp':
                     out.append({'op': 'imp', 's': spell(*rng.choice(GRID))})
                 elif kind == 'new':
@@ -102,6 +108,11 @@ class C16:
                     out.append({'op': 'exp', 'o': 0})
                 elif kind == 'exp_am':
                     out.append({'op': 'exp_am', 'o': rng.randrange(64)})
+                elif kind == 'exp_gk':
+                    # a third reader of the same objects: the graphic (staff position) exporter, under common and rare clefs
+                    out.append({'op': 'exp_gk', 'o': rng.randrange(64), 'clef': rng.choice(GK_CLEFS)})
+                    if rng.random() < 0.6:
+                        out.append({'op': 'exp', 'o': out[-1]['o']})
                 elif kind == 'read':
                     out.append({'op': 'read', 'o': rng.randrange(64), 'what': rng.choice(['chroma', 'acc', 'hash', 'eq', 'str', 'lt'])})
                 elif kind == 'tr':
@@ -155,7 +166,9 @@ class C16:
         ops.append({'op': 'exp', 'o': -1})
         ops.append({'op': 'exp', 'o': 0})
         return {'property': self.PROPERTY, 'config': 'fault_injecting' if faulty else 'fault_free',
-                'primary': list(primary), 'ops': ops, 'warnings': 'error' if st['env'].random() < 0.1 else 'default'}
+                'primary': list(primary), 'ops': ops, 'warnings': 'error' if st['env'].random() < 0.1 else 'default',
+                # second interpreter-environment knob: the application has switched logging to DEBUG (logging.basicConfig(level=DEBUG))
+                'logging': 'DEBUG' if st['env'].random() < 0.1 else 'default'}
 
     def summarize(self, plan):
         return {'config': plan['config'], 'primary': spell(*plan['primary']), 'ops': plan['ops']}
@@ -166,7 +179,8 @@ class C16:
         with warnings.catch_warnings():
             # interpreter environment knob: 10% of the runs treat every warning as an error (python -W error)
             warnings.simplefilter('error' if plan.get('warnings') == 'error' else 'ignore')
-            return self._execute(plan)
+            with debug_logging(plan.get('logging') == 'DEBUG'):
+                return self._execute(plan)
 
     def _execute(self, plan: dict) -> dict:
         import kernpy as kp
@@ -293,7 +307,7 @@ class C16:
                       add_v('import-wrong', 'import-wrong/in-new-thread', seq, list(self._model_of_spelling(op['s'])), box.get('imp'), spelling=op['s'])
                   check_pool(log.seq, 'thread', touched)
                   continue
-              if kind in ('exp', 'exp_am', 'read', 'tr', 'reimp', 'int_exp', 'set', 'bad_set'):
+              if kind in ('exp', 'exp_am', 'exp_gk', 'read', 'tr', 'reimp', 'int_exp', 'set', 'bad_set'):
                   if not pool:
                       continue
                   touched = op['o'] % len(pool)
@@ -376,6 +390,15 @@ class C16:
                           add_v('export-wrong', 'export-wrong/returned-normally-after-injected-' + op['payload'], seq, want, out[1], pool_index=touched)
                   after_fault = True
                   kind = 'interrupted-exp'
+              elif kind == 'exp_gk':
+                  o = pool[touched]
+                  fresh = replica_of(touched)
+                  got = self._call(lambda: kp.pitch_to_gkern_string(o, kp.ClefFactory.create_clef(op['clef'])))
+                  ref = self._call(lambda: kp.pitch_to_gkern_string(fresh, kp.ClefFactory.create_clef(op['clef'])))
+                  seq = log.emit('client', 'exp_gk', [touched, op['clef']], got)
+                  bump(probes, 'graphic_export_of_a_pool_object')
+                  if got != ref:
+                      add_v('second-reader-differs', 'second-reader-differs/gkern', seq, ref, got, pool_index=touched, clef=op['clef'])
               elif kind == 'exp_am':
                   o = pool[touched]
                   fresh = replica_of(touched)
